@@ -99,6 +99,13 @@ def gen(rng, tier):
             msg = rbytes(rng, n)
             for i in sorted({0, n // 2, n}):
                 cs.append(Case(line(rng, "generichash_obj", klen, "32 ", [msg[:i], msg[i:]]), cls="generichash_obj/vec-key"))
+    # instantiations with KEY_LENGTH ≠ OUTPUT_LENGTH (the two const generics must not be mixed up anywhere: new, update, finalize,
+    # finalize_to_vec, hash, hash_to_vec)
+    for keylen, pre in ((32, "64 "), (48, "24 "), (16, "16 ")):
+        for n in (0, 1, 64, 127, 128, 129, 300):
+            msg = rbytes(rng, n)
+            for i in sorted({0, n // 2, n}):
+                cs.append(Case(line(rng, "generichash_obj", keylen, pre, [msg[:i], msg[i:]]), cls="generichash_obj/key-len-ne-out-len"))
     if signfam:
         cs += signfam.c08_cases(rng, tier)
     return cs
